@@ -87,6 +87,28 @@ def parse(text):
         if p.startswith('// MIR FOR CTFE'):
             skip = True
             continue
+        first_line = p.split('\n', 1)[0]
+        mc = re.match(r'^const ([\w:]+): ([^=]+?) = (const .+);$', first_line)
+        if mc and '::promoted[' not in first_line:
+            f = Func('@const:' + mc.group(1))
+            f.ret = mc.group(2).strip()
+            f.locals['_0'] = f.ret
+            f.blocks['bb0'] = ['_0 = ' + mc.group(3), 'return']
+            funcs.setdefault(f.name, f)
+            skip = False
+            continue
+        mc = re.match(r'^const ([\w:]+): ([^=]+?) = \{$', first_line)
+        if mc and '::promoted[' not in first_line:
+            f = Func('@const:' + mc.group(1))
+            f.ret = mc.group(2).strip()
+            for lm in re.finditer(r'(?m)^\s+let (?:mut )?(_\d+): (.+);$', p):
+                f.locals[lm.group(1)] = lm.group(2).strip()
+            f.locals['_0'] = f.ret
+            for bm in re.finditer(r'(?m)^    (bb\d+)( \(cleanup\))?: \{\n(.*?)^    \}', p, re.S):
+                f.blocks[bm.group(1)] = [x.strip().rstrip(';') for x in bm.group(3).split('\n') if x.strip() and not x.strip().startswith('//')]
+            funcs.setdefault(f.name, f)
+            skip = False
+            continue
         if p.startswith('const ') and '::promoted[' in p.split('\n', 1)[0]:
             pm = PROM.match(p)
             if pm:
